@@ -1670,7 +1670,13 @@ func sigWord(s string) string {
 
 func runFidelity(e *ev.Env) {
 	// the client allocates a 1 MiB copy buffer per multipart request; keep the collector calm
-	debug.SetGCPercent(1000)
+	// ... but bounded: with a high GC percentage alone the heap may grow to a multiple of the live
+	// set, and the live set includes fasthttp's pooled body buffers, which grow to the largest
+	// upload (several MiB with the 1 MiB files). The soft limit makes the collector run whenever
+	// the process approaches it, whatever the percentage says.
+	debug.SetGCPercent(400)
+	debug.SetMemoryLimit(768 << 20)
+	defer recordMaxRSS(e)
 	rig := newEchoRig()
 	defer rig.close()
 	dir, err := os.MkdirTemp("", "vh-client-")
